@@ -231,7 +231,12 @@ def published_trans_ok(names):
 
 
 # ---- angle input types ----------------------------------------------------------------------
-INTYPES = ['float', 'deca', 'hpa', 'gona', 'dms', 'ddm', 'dmss', 'ddms', 'dmsa', 'ddma', 'dmsr', 'ddmr', 'dmsp', 'hpac', 'ddmc']
+INTYPES = ['float', 'deca', 'hpa', 'gona', 'dms', 'ddm', 'dmss', 'ddms', 'dmsa', 'ddma', 'dmsr', 'ddmr', 'dmsp', 'hpac', 'ddmc',
+           'dmsu', 'ddmu', 'dmsd', 'ddmd', 'hpad', 'decak', 'decaa']
+# dmsu / ddmu: UNREDUCED fields (59 min 60+ s, 60+ min: what adding field by field or rounding leaves behind; the angle is still
+# degree + minute/60 + second/3600); dmsd / ddmd / hpad: objects restored from a stored instance dictionary without running the
+# constructor (older pickles, copyreg, json round trips); decak: DECAngle(dec_angle=v) by keyword; decaa: a DECAngle whose
+# dec_angle was assigned after construction (the float slot of the object keeps the old number)
 # dmss / ddms: the object rebuilt from its own text form (DMSAngle(str(o)): tiny seconds print in exponent notation);
 # dmsa / ddma: an object whose public fields were assigned after construction;
 # dmsp: a DMS object after a pickle round trip; hpac / ddmc: deep / shallow copies of HP / DDM objects;
@@ -260,7 +265,7 @@ def denote(obj):
     if isinstance(obj, ga.GONAngle):
         return float(F(float(obj.gon_angle)) * 9 / 10)
     if isinstance(obj, ga.DECAngle):
-        return float.__float__(obj)
+        return float(obj.dec_angle)           # the angle the object holds (its float slot is not its public state)
     raise TypeError(type(obj))
 
 
@@ -326,6 +331,29 @@ def _as_type(dec, kind):
         o = ga.dec2ddm(-12.58244138888889 if src.positive else 12.58244138888889)
         o.dec(), o.hp(), str(o)
         o.degree, o.minute, o.positive = src.degree, src.minute, src.positive
+        return o
+    if kind == 'dmsu':
+        src = ga.dec2dms(dec)
+        if src.minute >= 1:
+            return ga.DMSAngle(src.degree, src.minute - 1, src.second + 60.0, positive=src.positive)
+        if src.degree >= 1:
+            return ga.DMSAngle(src.degree - 1, 59, src.second + 60.0, positive=src.positive)
+        return ga.DMSAngle(0, 0, src.minute * 60.0 + src.second, positive=src.positive)
+    if kind == 'ddmu':
+        src = ga.dec2ddm(dec)
+        if src.degree >= 1:
+            return ga.DDMAngle(src.degree - 1, src.minute + 60.0, positive=src.positive)
+        return src
+    if kind in ('dmsd', 'ddmd', 'hpad'):
+        src = ga.dec2dms(dec) if kind == 'dmsd' else ga.dec2ddm(dec) if kind == 'ddmd' else ga.HPAngle(ga.dec2hp(dec))
+        o = type(src).__new__(type(src))
+        o.__dict__.update(dict(vars(src)))
+        return o
+    if kind == 'decak':
+        return ga.DECAngle(dec_angle=dec)
+    if kind == 'decaa':
+        o = ga.DECAngle(12.58244138888889 if dec != 12.58244138888889 else -1.5)
+        o.dec_angle = float(dec)
         return o
     if kind == 'np64':
         return _NumObj(np.float64(dec))
@@ -460,14 +488,29 @@ def matrix_forms(m):
     return out
 
 
-def forms_agree(rec, call, m, base, site, case, coords, what, skip=()):
+def forms_agree(rec, call, m, base, site, case, coords, what, skip=(), matrix_class=False):
     """call(matrix) must not modify the matrix and must return the same as for the plain float64 array (base), whatever
     array object holds the values (see matrix_forms)"""
     import numpy as np
     from gpmc import snapshot as snp
     cb = snp.canon(base)
-    for nm, vf in matrix_forms(m):
+    forms = matrix_forms(m)
+    if matrix_class:
+        # numpy.matrix (what older numpy code and scipy.sparse hand out; still an ndarray subclass): only where the function under
+        # check accepts it on the unchanged tree; the numbers of the result are compared, its class is not
+        forms = forms + [('np.matrix', np.matrix(np.array(m, dtype=float)))]
+    for nm, vf in forms:
         if nm in skip:
+            continue
+        if nm == 'np.matrix':
+            st, r = rec.call(call, vf)
+            try:
+                same = st == 'ok' and flat(np.asarray(r) if isinstance(r, np.ndarray) else r) == flat(np.asarray(base) if isinstance(base, np.ndarray) else base)
+            except Exception:
+                same = False
+            if not same:
+                rec.fail('%s answers differently when the same matrix is held in a numpy.matrix' % what, site=site + ':matrix-form',
+                         observed=r, expected=base, case=case, coords=dict(coords, form=nm))
             continue
         bf = np.array(vf).tobytes()
         st, r = rec.call(call, vf)
